@@ -74,6 +74,38 @@ def isInstance (v : PyVal) (ty : String) : PyVal :=
 /-- `d.get(k)` -/
 def get (d : PyVal) (k : String) : PyVal := d.get k
 
+/-- the entries of a dict after `d[k] = v`: an existing key keeps its position and gets the new value, a new key goes to the end -/
+def setKV (k : String) (v : PyVal) : List (String × PyVal) → List (String × PyVal)
+  | [] => [(k, v)]
+  | (k', w) :: rest => if k' = k then (k', v) :: rest else (k', w) :: setKV k v rest
+
+/-- `d[k] = v` as a value: the dict `d` is bound to afterwards.  (On a non-dict CPython raises TypeError or does something else
+    entirely; the translator emits this only for a variable bound to a dict the fragment has just built and not aliased.) -/
+def setItem : PyVal → String → PyVal → PyVal
+  | .dict kvs, k, v => .dict (setKV k v kvs)
+  | d, _, _ => d
+
+/-- a dict display `{"k1": v1, "k2": v2, …}` with constant keys: entries are stored left to right (a repeated key keeps its
+    first position and takes the last value) -/
+def dictOf (kvs : List (String × PyVal)) : PyVal := kvs.foldl (fun d kv => setItem d kv.1 kv.2) (.dict [])
+
+/-- `dict(d)` for a dict `d`: a shallow copy (as a value: the same entries in the same order).  CPython raises TypeError for
+    None/numbers and accepts iterables of pairs; the translated fragments only copy decision dicts, other arguments give `{}` here. -/
+def dictCopy : PyVal → PyVal
+  | .dict kvs => .dict kvs
+  | _ => .dict []
+
+/-- `str(x)`: CPython's meaning on str / None / bool / int.  The text CPython produces for floats, containers and datetimes is
+    not modelled (the marker `"<repr>"` stands for it: a text that differs from every literal the translated source compares
+    `str(x)` with); the fragments apply `str` to the `decision` of a raw decision dict, which is a string. -/
+def strOf : PyVal → PyVal
+  | .str s => .str s
+  | .none => .str "None"
+  | .bool true => .str "True"
+  | .bool false => .str "False"
+  | .int n => .str (toString n)
+  | _ => .str "<repr>"
+
 def eq (a b : PyVal) : PyVal := .bool (pyEq a b)
 def ne (a b : PyVal) : PyVal := .bool (!pyEq a b)
 def isNone (a : PyVal) : PyVal := .bool a.isNone
